@@ -45,6 +45,10 @@ def check(run: Run) -> None:
 
     # ---------------- R1
     n_sites = 0
+    from ..lib import call_sites_of as _cso, unit as _unit
+
+    # _get_executor together with the private helpers that only it calls
+    ge_own = [g_ for g_ in _unit(m, ge) if g_ is ge or all(any(c_ is x for x in _unit(m, ge)) for c_, _call, _sk in _cso(m, g_))]
     for fi in m.funcs.values():
         for c in calls_in(fi):
             f = c.func
@@ -64,7 +68,7 @@ def check(run: Run) -> None:
                     reads = True
             if reads:
                 n_sites += 1
-                run.check(fi is ge, "C12.R1", fi, stmt_of(n), "executor attribute read only in _get_executor", f"{fi.qual.split(':')[-1]} reads the executor reference")
+                run.check(any(fi is g_ for g_ in ge_own), "C12.R1", fi, stmt_of(n), "executor attribute read only in _get_executor", f"{fi.qual.split(':')[-1]} reads the executor reference")
     run.floor("C12.R1", n_sites, 2, "executor access sites")
 
     # ---------------- R2 / R3
